@@ -163,6 +163,8 @@ def _c05_floors(m, tier):
     out += need(m, "special_point", ["loworder:0", "loworder:1", "loworder:order8a", "loworder:order8b", "loworder:p-1", "loworder:p",
                                      "loworder:p+1", "loworder:order8a|bit255", "u=2^255-1", "u=p+2", "u=2", "rfc7748:u1"], "special encodings")
     out += need(m, "kx", ["honest", "loworder_peer", "random_peer", "edge_peer"], "kx peer classes")
+    out += need(m, "structured_shared_secret", ["w0=w1,w2=w3", "w0=w2,w1=w3", "all_words_equal", "xor_of_words_zero", "low_half_zero", "high_half_zero", "single_nonzero_word", "first_16_zero"], "structured shared secrets")
+    out += need(m, "beforenm", ["locked_and_readonly_locked_containers"], "locked precomputation")
     out += need(m, "rfc7748_iterations", ["1", "1000"] if tier == "quick" else ["1", "1000", "1000000"], "RFC 7748 iterated vectors")
     if "x25519_point_side" in m.cov and len(m.cov["x25519_point_side"]) < 2:
         out.append("offline classification saw only one of curve/twist")
@@ -177,7 +179,7 @@ PROPS["C05"] = dict(
                "box precomputation and key-exchange session keys (classic + object API) are compared with libsodium including its refusals. The scalar/point "
                "space is 2^512, so this is exploration: dense on the special encodings, sampled elsewhere.",
     level_note="Where libsodium returns -1 (block-listed input or all-zero result) the RFC 7748 value is all-zero; the Python ladder arbitrates those cases offline.",
-    runs=lambda tier: [dict(build="st", monitor="c05")],
+    runs=lambda tier: [dict(build="st", monitor="c05"), dict(build="ni", monitor="c05", opts=NI_ONLY)],
     offline=offline.check_c05,
     models=["x25519", "salsa20"],
     floors=_c05_floors,
@@ -228,10 +230,10 @@ def _c01_floors(m, tier):
     out = need(m, "len_mod16", range(16), "message length residues mod 16")
     out += need(m, "len_mod64", range(64), "message length residues mod 64")
     ne, no = len(m.cov.get("enc_form", {})), len(m.cov.get("open_form", {}))
-    if ne < 25:
-        out.append("only %d of 25 encryption forms (20 stable + 5 heap/locked) driven" % ne)
-    if no < 22:
-        out.append("only %d of 22 opening forms (18 stable + 4 heap/locked) driven" % no)
+    if ne < 26:
+        out.append("only %d of 26 encryption forms (20 stable + 6 heap/locked) driven" % ne)
+    if no < 24:
+        out.append("only %d of 24 opening forms (18 stable + 6 heap/locked) driven" % no)
     for dim, kv in m.cov.items():
         if dim.startswith("enc_form_x_len_mod16[") and len(kv) < 16:
             out.append("%s saw only %d residues" % (dim, len(kv)))
@@ -241,7 +243,7 @@ def _c01_floors(m, tier):
 PROPS["C01"] = dict(
     level="exploration",
     technique="runtime differential monitoring: every encryption/open entry point x container type executed on every message length, ciphertext bytes compared with libsodium, cross-opening in both directions, sealed-box construction re-derived; Python XSalsa20-Poly1305 / X25519 model offline",
-    level_text="25 encryption forms and 22 opening forms (classic easy/detached/in-place/afternm/seal and the object API over array, stack, Vec, heap, locked and read-only-locked "
+    level_text="26 encryption forms and 24 opening forms (classic easy/detached/in-place/afternm/seal and the object API over array, stack, Vec, heap, locked and read-only-locked "
                "containers) are run on every message length 0..=320 (quick) / 0..=1100 (thorough) plus multi-KiB lengths with seeded keys including all-zero/all-0xff keys and nonces; "
                "each ciphertext must equal libsodium's bytes and each libsodium ciphertext must open. Keys, nonces and contents are sampled; lengths are enumerated.",
     level_note="libsodium is the specification named by the property; sealed boxes are checked by libsodium opening them and by re-deriving nonce = BLAKE2b-24(epk||rpk).",
@@ -265,8 +267,8 @@ def _fault_floors(pid):
             if not any(k.endswith("|" + comp) for k in cells):
                 out.append("fault class %s never exercised" % comp)
         forms = {k.split("|")[0] for k in cells}
-        if len(forms) < 24:
-            out.append("only %d of 24 opening forms (18 AE + 4 heap/locked + 2 stream) reached by faults" % len(forms))
+        if len(forms) < 26:
+            out.append("only %d of 26 opening forms (18 AE + 6 heap/locked + 2 stream) reached by faults" % len(forms))
         return out
     return floors
 
@@ -344,6 +346,7 @@ def _c04_floors(m, tier):
     if len(m.cov.get("entry_point", {})) < 21:
         out.append("only %d of 21 entry-point groups (17 stable + 4 heap/locked) driven" % len(m.cov.get("entry_point", {})))
     out += need(m, "stream_tag_byte", range(256), "authentic stream messages with every tag byte")
+    out += need(m, "stream_counter_class", ["fresh", "midrange", "0xfffffffe", "0xffffffff"], "stream counter classes")
     out += need(m, "content_class", ["zeros", "ff", "random", "valid_prefix", "valid_mutated", "valid"], "content classes")
     out += need(m, "pwhash_family", ["grammar", "structural_mutation", "parameter_list", "base64", "random_bytes(lossy utf8)", "separator_runs", "valid", "valid_one_char_mutated", "single_edit_insert", "single_edit_replace", "single_edit_delete"], "password-string families")
     if len(m.cov.get("shorter_than_overhead", {})) < 16:
